@@ -312,6 +312,11 @@ func (c *Ctx) Finish() int {
 		// a concrete input on which the implementation fails the property
 		sort.Slice(gtViol, func(i, j int) bool { return len(gtViol[i].Input.String()) < len(gtViol[j].Input.String()) })
 		seen := map[string]bool{}
+		if os.Getenv("VERIF_REPORT_ALL") != "" {
+			for _, cs := range gtViol {
+				fmt.Fprintf(os.Stderr, "  [%s] (all) case %d (%s) %s: %s\n", c.Prop, cs.ID, cs.Class, trunc(cs.Desc, 120), trunc(cs.GT, 160))
+			}
+		}
 		for _, cs := range gtViol {
 			key := cs.Class + "|" + trunc(cs.GT, 40)
 			if seen[key] || len(seen) >= 5 {
